@@ -523,7 +523,9 @@ def apply(j):
     for p in new:
         still_called = any(t and t['k'] == 'call' and _callee_path(t, bodies) == p for b in j['bodies'] if b['path'] not in new
                            for blk in b['blocks'] for t in [blk['term']])
-        if p in values or still_called:
+        if p in values or still_called or ' as ' in p:
+            # (a method of a trait impl is reached through the trait - `impl Read for Wrapper` is called by std's read_exact, `impl
+            # Iterator` by a `for` loop, `impl Drop` by scope exit - so it stays visible to the rules that scan every body)
             report['kept'].append(p)
         else:
             drop.add(p)
